@@ -362,7 +362,11 @@ func (e *Env) binary(x *Expr) TV {
 		m := e.Tr(x.Args[1])
 		mv := e.mapValue(m)
 		e.cands.addKey(k.T)
-		return TV{Select(MapHas(mv), k.T), nil}
+		has := Select(MapHas(mv), k.T)
+		if !isMapSort(m.T.Sort) {
+			has = And(Not(Eq(m.T, IntLit(0))), has) // a nil map has no keys
+		}
+		return TV{has, nil}
 	}
 	a := e.Tr(x.Args[0])
 	b := e.Tr(x.Args[1])
